@@ -7,6 +7,7 @@ Terms (tuples):
   ("fn0", body) ("fn1", body) ("call0", f) ("call1", f, a)
   ("loop", init, body) ("recur", e)                            ; recur only in tail position of loop / fn1 body
   ("try", body, handler) ("finally", body, fin) ("def", e) ("vec", a, b)
+  ("gref",)   ; a read of the global that def defines (not enumerated by terms(): used by skeleton families only)
 The reference evaluator contains no code from basilisp.
 """
 from __future__ import annotations
@@ -121,6 +122,8 @@ def to_text(t, naming="plain", trace=False):
             s = "1"
         elif tag == "var":
             s = names[t[1]]
+        elif tag == "gref":
+            s = GLOBAL[naming]
         elif tag == "throw":
             s = "(throw (python/ValueError))"
         elif tag == "if":
@@ -313,6 +316,10 @@ class Ref:
                 raise
             sub(t[2])
             return done(v)
+        if tag == "gref":
+            if not self.glob[1]:
+                raise RefExc("Unbound")
+            return done(self.glob[0])
         if tag == "def":
             v = sub(t[1])
             self.glob[0] = v
@@ -503,6 +510,8 @@ class HoistRef(Ref):
                 raise
             sub(t[2])()
             return const(v)
+        if tag == "gref":
+            return wrap(lambda: self.glob[0])  # a name: read when the residual expression is evaluated
         if tag == "def":
             v = sub(t[1])()  # the init value is bound by a statement (dependency time)
             self.glob[0] = v
